@@ -7,9 +7,12 @@ package main
 
 import (
 	"fmt"
+	"go/constant"
 	"go/token"
 	"go/types"
 	"os"
+	"sort"
+	"strings"
 
 	"golang.org/x/tools/go/ssa"
 )
@@ -538,7 +541,22 @@ func (pp *cgPipe) decidedBy(v CV, depth int, seen map[CV]bool) (errDriven, other
 	}
 	edges, ok := g.phiEdges(v)
 	if !ok {
-		if vals, ok := g.loadVals(v); ok {
+		if leaves, ok := g.valuesAt(v); ok {
+			// a state variable: what its assignments are chosen by
+			for _, l := range leaves {
+				if !l.Zero {
+					e, o := pp.decidedBy(l.Val, depth+1, seen)
+					errDriven, otherThreshold = errDriven || e, otherThreshold || o
+				}
+				for _, dc := range l.Conds {
+					if !g.dominates(pp.read.C.entry(), dc.At) && dc.At.C != pp.read.C {
+						continue
+					}
+					e, o := pp.condDecidedBy(dc.Cond, depth+1, seen)
+					errDriven, otherThreshold = errDriven || e, otherThreshold || o
+				}
+			}
+		} else if vals, ok := g.loadVals(v); ok {
 			for _, s := range vals {
 				e, o := pp.decidedBy(s, depth+1, seen)
 				errDriven, otherThreshold = errDriven || e, otherThreshold || o
@@ -636,6 +654,24 @@ func (x *c01Ctx) segArgs(pp *cgPipe, root string, opNode *cgNode, driver *cgLoop
 	// ---- last flag
 	cons := owner + " last flag"
 	t := pp.evalD(lastV, opNode, 0, false)
+	if os.Getenv("C01_LAST") != "" {
+		fmt.Printf("LAST %s = %s\n", lastV.V.String(), t)
+		if lv, ok := g.valuesAt(g.res(lastV)); ok {
+			for _, l := range lv {
+				pv, known, contra := pp.pFactX(l.Conds, 0)
+				vs := "zero"
+				if !l.Zero {
+					vs = l.Val.V.String()
+				}
+				fmt.Printf("  leaf %s conds=%d P=%v known=%v contra=%v\n", vs, len(l.Conds), pv, known, contra)
+				for _, dc := range l.Conds {
+					fmt.Printf("      cond %s br=%v eval=%s\n", dc.Cond.V.String(), dc.Branch, pp.evalD(dc.Cond, dc.At, 1, false))
+				}
+			}
+		} else {
+			fmt.Println("  valuesAt failed")
+		}
+	}
 	lastOK := false
 	switch t {
 	case triN:
@@ -690,7 +726,7 @@ func (x *c01Ctx) segArgs(pp *cgPipe, root string, opNode *cgNode, driver *cgLoop
 	x.afterLastG(pp, owner, opNode, lastV, pos, driver.Head.C)
 
 	// ---- empty message
-	x.emptyG(pp, owner, root, opNode, dataV, pos)
+	x.emptyG(pp, owner, root, opNode, dataV, pos, driver)
 }
 
 func (pp *cgPipe) lenStr(l cgLin) string {
@@ -760,13 +796,30 @@ func (x *c01Ctx) counterG(pp *cgPipe, owner string, opNode *cgNode, driver *cgLo
 			}
 			l := g.lin(v)
 			lv, isLoad := l.Base.V.(*ssa.UnOp)
-			if !isLoad || lv.Op != token.MUL || l.K != 1 || g.objKey(l.Base) != g.objKey(numV) {
+			sameVar := false
+			if isLoad && lv.Op == token.MUL {
+				if nu, ok := numV.V.(*ssa.UnOp); ok && nu.Op == token.MUL {
+					k1, _, ok1 := g.memKey(CV{l.Base.C, lv.X})
+					k2, _, ok2 := g.memKey(CV{numV.C, nu.X})
+					sameVar = ok1 && ok2 && k1 == k2
+				}
+				if !sameVar {
+					sameVar = g.objKey(l.Base) == g.objKey(numV)
+				}
+			}
+			if !isLoad || lv.Op != token.MUL || l.K != 1 || !sameVar {
 				undec = true
 				continue
 			}
 			vn := g.nodeOfValue(g.res(v))
 			if vn != nil && g.dominates(vn, opNode) && g.dominates(driver.Head, vn) {
 				bad = "the segment counter is incremented before the segment is processed: the first segment is not number 0"
+			}
+		}
+		if os.Getenv("C01_CTR") != "" {
+			for _, v := range vals {
+				l := g.lin(v)
+				fmt.Printf("CTR val %s lin base=%v K=%d key=%s numKey=%s\n", v.V.String(), l.Base.V, l.K, g.objKey(l.Base), g.objKey(numV))
 			}
 		}
 		switch {
@@ -786,18 +839,47 @@ func (x *c01Ctx) counterG(pp *cgPipe, owner string, opNode *cgNode, driver *cgLo
 func (x *c01Ctx) afterLastG(pp *cgPipe, owner string, opNode *cgNode, lastV CV, pos string, driverCtx *cgCtx) {
 	g := pp.g
 	lastR, lastBr := g.stripNot(lastV, true) // last == true means lastR == lastBr
+	// when last is read from a local variable / state field: later reads of it see the same value until it is assigned
+	lastKey := ""
+	if u, ok := lastR.V.(*ssa.UnOp); ok && u.Op == token.MUL {
+		if k, _, ok := g.memKey(CV{lastR.C, u.X}); ok {
+			lastKey = k
+		}
+	}
+	assigned := map[*cgNode]bool{} // nodes that assign the variable
+	if lastKey != "" {
+		g.eachInstr(func(n *cgNode, in ssa.Instruction) {
+			if st, ok := in.(*ssa.Store); ok {
+				if k, _, ok := g.memKey(CV{n.C, st.Addr}); ok && (k == lastKey || strings.HasPrefix(lastKey, k+"#")) {
+					assigned[n] = true
+				}
+			}
+		})
+	}
 	type key struct {
 		n, pred *cgNode
 		unc     bool
+		dirty   bool
 	}
 	seen := map[key]bool{}
 	certain, uncertain := false, false
 	// value of boolean c on arrival at n from pred, under last == true
+	dirtyNow := false
 	var resolve func(c CV, n, pred *cgNode, d int) (val, known, related bool)
 	resolve = func(c CV, n, pred *cgNode, d int) (bool, bool, bool) {
 		c, br := g.stripNot(c, true)
 		if c == lastR {
 			return br == lastBr, true, true
+		}
+		if lastKey != "" {
+			if u, ok := c.V.(*ssa.UnOp); ok && u.Op == token.MUL {
+				if k, _, ok := g.memKey(CV{c.C, u.X}); ok && k == lastKey {
+					if !dirtyNow {
+						return br == lastBr, true, true
+					}
+					return false, false, true
+				}
+			}
 		}
 		// a re-computation of the same decision: last == true means the count did not reach the limit
 		switch pp.evalD(c, n, 0, false) {
@@ -827,9 +909,9 @@ func (x *c01Ctx) afterLastG(pp *cgPipe, owner string, opNode *cgNode, lastV CV, 
 		}
 		return false, false, g.cone(c)[lastR]
 	}
-	var walk func(n, pred *cgNode, unc bool)
-	walk = func(n, pred *cgNode, unc bool) {
-		k := key{n, pred, unc}
+	var walk func(n, pred *cgNode, unc, dirty bool)
+	walk = func(n, pred *cgNode, unc, dirty bool) {
+		k := key{n, pred, unc, dirty}
 		if seen[k] {
 			return
 		}
@@ -848,32 +930,33 @@ func (x *c01Ctx) afterLastG(pp *cgPipe, owner string, opNode *cgNode, lastV CV, 
 		}
 		if len(n.succs) != 2 {
 			for _, s := range n.succs {
-				walk(s, n, unc)
+				walk(s, n, unc, dirty || assigned[n])
 			}
 			return
 		}
 		if c, ok := g.edgeCond(n, n.succs[0]); ok {
+			dirtyNow = dirty || assigned[n]
 			val, known, related := resolve(c.Cond, n, pred, 0)
 			if known {
 				if val {
-					walk(n.succs[0], n, unc)
+					walk(n.succs[0], n, unc, dirty || assigned[n])
 				} else {
-					walk(n.succs[1], n, unc)
+					walk(n.succs[1], n, unc, dirty || assigned[n])
 				}
 				return
 			}
 			for _, s := range n.succs {
-				walk(s, n, unc || related)
+				walk(s, n, unc || related, dirty || assigned[n])
 			}
 			return
 		}
 		for _, s := range n.succs {
-			walk(s, n, unc)
+			walk(s, n, unc, dirty || assigned[n])
 		}
 	}
 	if len(opNode.succs) > 0 || opNode.kid != nil {
 		for _, s := range opNode.succs {
-			walk(s, opNode, false)
+			walk(s, opNode, false, false)
 		}
 	}
 	cons := owner + " nothing after last"
@@ -961,13 +1044,13 @@ func (g *cGraph) pathReach(pp *cgPipe, start *cgNode, visit func(n *cgNode) int)
 }
 
 // emptyG: R6 — with no data the segment operation is not reached and the stream is closed cleanly.
-func (x *c01Ctx) emptyG(pp *cgPipe, owner, root string, opNode *cgNode, dataV CV, pos string) {
+func (x *c01Ctx) emptyG(pp *cgPipe, owner, root string, opNode *cgNode, dataV CV, pos string, driver *cgLoop) {
 	r, g := x.r, pp.g
 	type guard struct {
 		c     cgCond
 		empty *cgNode
 	}
-	var guards []guard
+	var guards, extra []guard
 	for _, dc := range g.domConds(opNode) {
 		cmp, ok := g.decode(dc.Cond, dc.Branch)
 		if !ok {
@@ -999,13 +1082,68 @@ func (x *c01Ctx) emptyG(pp *cgPipe, owner, root string, opNode *cgNode, dataV CV
 		}
 		guards = append(guards, guard{dc, empty})
 	}
+	// further zero-length tests of the data in the driver loop that do not dominate the operation
+	// (switch { case n == 0 && first: break; case n == 0: fail }): their empty side may be the clean exit
+	if driver != nil {
+		have := map[*cgNode]bool{}
+		for _, gd := range guards {
+			have[gd.c.At] = true
+		}
+		var cands []*cgNode
+		for n := range driver.Body {
+			cands = append(cands, n)
+		}
+		sort.Slice(cands, func(i, j int) bool { return cands[i].idx < cands[j].idx })
+		for _, n := range cands {
+			if have[n] || len(n.succs) != 2 || !g.dominates(n, opNode) && !g.reach(n, nil)[opNode] {
+				continue
+			}
+			c, ok := g.edgeCond(n, n.succs[0])
+			if !ok {
+				continue
+			}
+			cmp, ok := g.decode(c.Cond, true)
+			if !ok {
+				continue
+			}
+			e, kv, op := cmp.X, cmp.Y, cmp.Op
+			if _, isK := g.constInt(e); isK {
+				e, kv, op = kv, e, c01FlipOp(op)
+			}
+			k, isK := g.constInt(kv)
+			if !isK {
+				continue
+			}
+			emptyIdx := -1
+			switch {
+			case (op == token.EQL && k == 0) || (op == token.LSS && k == 1) || (op == token.LEQ && k == 0):
+				emptyIdx = 0
+			case (op == token.NEQ && k == 0) || (op == token.GTR && k == 0) || (op == token.GEQ && k == 1):
+				emptyIdx = 1
+			}
+			if emptyIdx < 0 {
+				continue
+			}
+			same := true
+			for _, pv := range []bool{true, false} {
+				a, ok1 := pp.linWhen(e, n, pv, 0)
+				b, ok2 := pp.lenWhen(dataV, opNode, pv, 0)
+				if !ok1 || !ok2 || a != b {
+					same = false
+				}
+			}
+			if same {
+				extra = append(extra, guard{cgCond{Cond: c.Cond, Branch: emptyIdx == 1, At: n, To: n.succs[1-emptyIdx]}, n.succs[emptyIdx]})
+			}
+		}
+	}
 	cons := owner + " no segment for empty input"
 	if len(guards) == 0 {
 		r.Undecide("C01.R6: no test of the data length for zero dominates the segment operation of %s; whether an empty input produces a segment is not decided", root)
 		return
 	}
 	clean := false
-	for _, gd := range guards {
+	for _, gd := range append(append([]guard{}, guards...), extra...) {
 		found := g.pathReach(pp, gd.empty, func(n *cgNode) int {
 			for _, in := range n.instrs() {
 				c, ok := in.(*ssa.Call)
@@ -1222,6 +1360,28 @@ func (x *c01Ctx) carryOverG(pp *cgPipe, owner string, fill *cgRead, pos string) 
 		if !carries {
 			r.Violation("C01.R5-segment-args", cons, s.pos, "the byte stored at the start of the buffer for the next segment is not the look-ahead byte buffer[count-1]: a wrong byte is injected at every segment boundary")
 			return
+		}
+		// the restore is usually guarded by a "have a carried byte" flag: that flag must be able to be true
+		for _, dc := range g.domConds(s.n) {
+			c, br := g.stripNot(dc.Cond, dc.Branch)
+			if b, ok := c.V.Type().Underlying().(*types.Basic); !ok || b.Kind() != types.Bool {
+				continue
+			}
+			if _, isCmp := c.V.(*ssa.BinOp); isCmp || !br {
+				continue
+			}
+			srcs := g.sources(c)
+			allFalse := len(srcs) > 0
+			for _, sv := range srcs {
+				k, isK := sv.V.(*ssa.Const)
+				if !isK || k.Value == nil || k.Value.Kind() != constant.Bool || constant.BoolVal(k.Value) {
+					allFalse = false
+				}
+			}
+			if _, isLoad := c.V.(*ssa.UnOp); isLoad && allFalse && len(g.unresolved(g.srcSet(srcs))) == 0 {
+				r.Violation("C01.R5-segment-args", cons, s.pos, "the look-ahead byte is restored only when a flag is set, and that flag is never assigned true: the byte is lost at every segment boundary")
+				return
+			}
 		}
 		sn := s.n
 		if !restartsFrom(func(v CV) bool { k, ok := g.constInt(v); return ok && k == 1 }, sn) {
